@@ -32,7 +32,7 @@ PROPS = {
     'C08': {
         'title': 'Compilation is total: every input yields a result or a rendered diagnostic',
         # roll-up: panic / overflow / bounds freedom of every function under contract (tag C08 in each unit)
-        'v_units': ['cond_chain', 'cond_parser', 'bindings', 'lexer_digits', 'token_stream', 'source_manager', 'layout', 'hlsl_bindings', 'hlsl_analyse'],
+        'v_units': ['cond_chain', 'cond_parser', 'bindings', 'lexer_digits', 'token_stream', 'source_manager', 'layout', 'hlsl_bindings', 'hlsl_analyse', 'hlsl_expr'],
         'k_groups': [],
         'design_ref': 'DESIGN.md §3 C08',
     },
@@ -47,6 +47,12 @@ PROPS = {
         'v_units': ['cond_chain', 'cond_parser'],
         'k_groups': [],
         'design_ref': 'DESIGN.md §3 C11',
+    },
+    'C01': {
+        'title': 'HLSL export preserves the meaning of every accepted program',
+        'v_units': ['hlsl_expr'],
+        'k_groups': [],
+        'design_ref': 'DESIGN.md Part I, I.4 (C01)',
     },
     'C05': {
         'title': 'Reflection metadata agrees with the emitted source',
